@@ -116,6 +116,34 @@ CHECKS["C18"] = dict(
     note="Trusted: the C kernels (judged by C01/C02/C04 against the independent evaluator), CPython as the reference Python semantics.",
     design="5/C18",
 )
+CHECKS["C14"] = dict(
+    category="exploration",
+    technique="harness-owned deterministic scheduler over the children's file-system/sleep/compiler/dlopen sync points; Hypothesis-generated (thorough: enumerated) interleavings; invariants over the recorded history",
+    text="2-3 real processes run jit.compile_forms on one fresh cache directory; every primitive touching the cache blocks until the controller grants it, so the interleaving is chosen by a generated cyclic schedule (the thorough tier also enumerates all two-process interleavings by prefix flipping). The history must show exactly one compiler spawn, no load before link + ready marker, no exception, correct kernels everywhere, and a late request that reuses the cache. Interleavings are at sync-point granularity.",
+    note="Trusted: the wrappers see every cache access FFCx/cffi make (observed list in DESIGN.md 3.8); steps inside gcc/ld/the loader are atomic for the model.",
+    design="5/C14",
+)
+CHECKS["C15"] = dict(
+    category="fault_enumeration",
+    technique="fault injection at every builder sync point (SIGKILL), transient compiler/linker failure via CC/LDSHARED wrappers, injected code-generation exceptions, each followed by generated follow-up request sequences; oracles on cache state, process-global state and follow-up outcomes",
+    text="Every sync point of the building process is a crash point and is killed there once per run (enumerated), plus waiter kills and Hypothesis-generated combinations of crash point x 1-3 sequential or concurrent follow-up requests; code generation and C compile/link failures are injected transiently. After a raised failure the lock must be gone, .failed present, logger handlers and stdout untouched and the next request must rebuild; after a kill every later request must return a correct kernel or raise TimeoutError.",
+    note="Trusted: crash points = harness sync points; kills inside gcc/ld are represented by the points around their spawn.",
+    design="5/C15",
+)
+CHECKS["C19"] = dict(
+    category="exploration",
+    technique="outcome classification (built / rejected before the compiler / compiler error) of Hypothesis-generated supported and deliberately unsupported inputs, differential check of built kernels, and exhaustive enumeration of quadrature-rule id collisions",
+    text="Generated supported forms/expressions and 'wild' inputs (cell_avg, Bessel functions, raw geometry, prism dS, DG vertex integrals, non-TP sum factorisation, ridge integrals, ...) are classified; a C compiler error or a built kernel that disagrees with the reference is a violation, a Python exception is an allowed rejection. All quadrature rules (6 cells x degree 0-30 x 3 schemes x 2 polysets + vertex) are enumerated and every pair sharing FFCx's rule id is compiled as a two-rule form (exhaustive over rule pairs).",
+    note="Trusted: gcc as the C17 compiler; 'supported' is never inferred - only compiler errors and silent miscomputation count.",
+    design="5/C19",
+)
+CHECKS["C20"] = dict(
+    category="exploration",
+    technique="Hypothesis-generated UFL files x option sources x output-layout flags run through `python -m ffcx` in fresh children; oracles: stand-alone compile, header/object symbol agreement, alias resolution, differential against the in-process build with the harness-merged effective options",
+    text="Generated files with several named forms/expressions and awkward file stems are compiled by the command-line tool under generated combinations of CLI flags, $PWD and $XDG option files and -o/-n/-d; the outputs must exist, compile stand-alone, define everything the header declares, expose working aliases, carry the effective options (own merge CLI > PWD > XDG > defaults) in banner, kernel pointers and table names, and give bit-identical tensors to the in-process build with those options. Sampling.",
+    note="Trusted: gcc, nm, the harness's option merge as the specification of precedence.",
+    design="5/C20",
+)
 PENDING = {}
 
 def main():
